@@ -30,6 +30,8 @@ pub struct VerifState {
     pub new_session_at_connect: bool,
     pub need_store_before_connect: bool,
     pub established: bool,
+    pub ids_before_connect: Vec<u64>,
+    pub handled_before_connect: Vec<u64>,
     /// serialised stored packets, in store order
     pub store: Vec<Vec<u8>>,
     pub offline_publish: bool,
@@ -88,6 +90,8 @@ where
             new_session_at_connect,
             need_store_before_connect,
             established,
+            ids_before_connect,
+            handled_before_connect,
             store,
             offline_publish,
             auto_pub_response,
@@ -135,6 +139,8 @@ where
             new_session_at_connect: *new_session_at_connect,
             need_store_before_connect: *need_store_before_connect,
             established: *established,
+            ids_before_connect: sorted_ids(ids_before_connect),
+            handled_before_connect: sorted_ids(handled_before_connect),
             store: store
                 .get_stored()
                 .iter()
@@ -192,6 +198,8 @@ where
             new_session_at_connect: self.new_session_at_connect,
             need_store_before_connect: self.need_store_before_connect,
             established: self.established,
+            ids_before_connect: self.ids_before_connect.clone(),
+            handled_before_connect: self.handled_before_connect.clone(),
             store: self.store.clone(),
             offline_publish: self.offline_publish,
             auto_pub_response: self.auto_pub_response,
